@@ -82,6 +82,15 @@ Theorem C18_by_page_beyond_end_empty : forall h index size,
   acc_by_page h index size = (0, [], h) /\ mom_by_page h index size = (0, [], h).
 Proof. exact by_page_beyond_end. Qed.
 
+(* for EVERY uint32 page index (the wrapping last one included) and every chain height: no error, Count = frontier height,
+   at most `size` entries, each an existing height of that page's interval (h-(index+1)*size, h-index*size] *)
+Theorem C18_by_page_bounded : forall h index size r,
+  0 < h < two63 - 1 -> 0 <= index < two32 -> 0 < size <= RpcMaxPageSize ->
+  r = acc_by_page h index size \/ r = mom_by_page h index size ->
+  exists l, r = (0, l, h) /\ Z.of_nat (length l) <= size /\
+            (forall x, In x l -> 1 <= x <= h /\ h - (index + 1) * size < x <= h - index * size).
+Proof. exact by_page_bounded. Qed.
+
 (* reward / pillar-history pagers: page `index` is the epochs (last-(index+1)*size, last-index*size] clipped at 0, descending *)
 Theorem C18_epoch_page_exact : forall last index size,
   -1 <= last < two63 / 2 -> in_u32 index -> 0 <= size <= RpcMaxPageSize ->
